@@ -4,6 +4,10 @@
 //   - map iteration order (Keys)
 //   - the file system (ReadFile)
 //   - progress (Tick / Enter / Exit): deterministic hang and runaway-recursion detection
+//   - goroutines the compiler starts (GoExit): a panic or a tripped budget inside one is
+//     recorded for the caller instead of killing the process. The unchanged tree starts
+//     none (GoSites, written by the instrumenter, is 0); the bookkeeping of every seam is
+//     goroutine-safe so that a change which introduces them cannot break the seams.
 //
 // With its zero configuration (no order function, no disk, no budgets) it is
 // transparent: canonical (sorted) map order, real file reads, no limits.
@@ -13,7 +17,9 @@ import (
 	"fmt"
 	"os"
 	"reflect"
+	"runtime"
 	"sort"
+	"sync"
 	"sync/atomic"
 )
 
@@ -58,8 +64,36 @@ var (
 	DiskReads  int
 )
 
+var mu sync.Mutex // guards the bookkeeping of Keys and the goroutine failure record
+
+var goFailure interface{} // first panic value recovered in a goroutine started by the compiler
+
+// GoExit is deferred at the top of every `go func() { ... }()` body of the compiler.
+func GoExit() {
+	if r := recover(); r != nil {
+		mu.Lock()
+		if goFailure == nil {
+			goFailure = r
+		}
+		mu.Unlock()
+	}
+}
+
+// TakeGoFailure returns (and clears) the first panic recovered in a goroutine since Reset.
+func TakeGoFailure() interface{} {
+	mu.Lock()
+	defer mu.Unlock()
+	r := goFailure
+	goFailure = nil
+	return r
+}
+
 // Reset clears the per-compilation counters (not the configuration).
 func Reset() {
+	mu.Lock()
+	goFailure = nil
+	mu.Unlock()
+	Yields = 0
 	atomic.StoreInt64(&Ticks, 0)
 	atomic.StoreInt64(&depth, 0)
 	Depth = 0
@@ -77,7 +111,19 @@ func Tick() {
 	if TickBudget > 0 && n > TickBudget {
 		panic(BudgetExceeded{Kind: "ticks", Ticks: n, Depth: int(atomic.LoadInt64(&depth))})
 	}
+	if YieldFn != nil && YieldFn(n) {
+		Yields++
+		runtime.Gosched()
+	}
 }
+
+// YieldFn, when set (only for trees that start goroutines, which then run on ONE processor),
+// decides from the tick number whether the running goroutine hands the processor to the next
+// runnable one here: the seeded part of the schedule.
+var YieldFn func(tick int64) bool
+
+// Yields counts the hand-overs of the current compilation.
+var Yields int64
 
 var depth int64
 
@@ -97,7 +143,9 @@ func Exit() { Depth = int(atomic.AddInt64(&depth, -1)) }
 
 // ReadFile replaces ioutil.ReadFile / os.ReadFile in library packages.
 func ReadFile(path string) ([]byte, error) {
+	mu.Lock()
 	DiskReads++
+	mu.Unlock()
 	if ReadFileFn != nil {
 		return ReadFileFn(path)
 	}
@@ -141,7 +189,10 @@ func Keys[K comparable, V any](m map[K]V, site string) []K {
 	if n < 2 {
 		return keys
 	}
-	if !canonicalSort(keys) {
+	sorted := canonicalSort(keys)
+	mu.Lock()
+	defer mu.Unlock()
+	if !sorted {
 		Unordered++
 	}
 	visit := VisitCount
